@@ -287,8 +287,8 @@ Section Proofs.
   Lemma extends_scoped a b c : extends a b -> chan_ok a c -> scoped a c = scoped b c.
   Proof.
     intros (HP & HU & x & HN) Hc. destruct c as [u j|n].
-    - apply (same_skel_scoped (mkS val (s_parent val a) (s_users val a) [] None)
-                              (mkS val (s_parent val a) (s_users val b) [] None) (CU u j)).
+    - apply (same_skel_scoped (mkS val (s_parent val a) (s_users val a) [] false)
+                              (mkS val (s_parent val a) (s_users val b) [] false) (CU u j)).
       repeat split; simpl; auto.
     - simpl in *.
       assert (E : option_map nskel (nth_error (s_nodes val a) n) = option_map nskel (nth_error (s_nodes val b) n)).
@@ -384,7 +384,7 @@ Section Proofs.
         ((if q_inject_self val q then [OC (q_self val q)] else []) ++ q_others val q) None false.
 
   Definition grown (st : state) (q : request) : state :=
-    mkS val (s_parent val st) (s_users val st) (s_nodes val st ++ [new_node st q]) (s_wfcache val st).
+    mkS val (s_parent val st) (s_users val st) (s_nodes val st ++ [new_node st q]) false.
 
   Lemma grown_extends st q : extends st (grown st q).
   Proof. repeat split; simpl. exists [nskel (new_node st q)]. rewrite map_app. reflexivity. Qed.
@@ -838,6 +838,8 @@ Definition w_rows : list pyrow :=
   [("add", ["int:1"; "int:1"], false, "int:2");
    ("add", ["int:1"; "str:'1'"], true, "TypeError");
    ("add", ["int:1"; "int:2"], false, "int:3");
+   ("neg", ["int:1"], false, "int:-1");
+   ("pos", ["int:-1"], false, "int:-1");
    ("mul", ["int:2"; "int:4"], false, "int:8");
    ("slice", ["str:'1_2'"], false, "slice:slice(None, '1_2', None)");
    ("slice", ["int:4"], false, "slice:slice(None, 4, None)");
@@ -845,7 +847,7 @@ Definition w_rows : list pyrow :=
 Definition w_users (i_ran : bool) : list (urec tval) :=
   [mkU "x" [("user_input", "int:1")] true; mkU "y" [("user_input", "int:2")] true;
    mkU "l" [("user_input", "list:[1, 2, 3, 4]")] true; mkU "i" [("user_input", "int:1")] i_ran].
-Definition w_st0 : state tval := mkS tval true (w_users false) [] None.
+Definition w_st0 : state tval := mkS tval true (w_users false) [] false.
 Definition w_pyop := tbl_pyop w_rows.
 Definition w_str := tbl_str w_strs.
 Definition w_inject := inject tval w_pyop w_str t_is_none "NoneType:None" (fun s => s).
@@ -958,3 +960,13 @@ Proof.
   destruct (Hin a Ha) as [->|[->| ->]], (Hin b Hb) as [->|[->| ->]]; vm_compute;
     intros H; try reflexivity; discriminate H.
 Qed.
+
+(* the parent's own cache short-circuits the second pull: +(-i), written before i had data, never
+   gets its input *)
+Lemma w_pull_cache : exists st1 a o1 st2 b o2 st3 c o3 st4 v st5,
+  w_inject w_st0 (@mkQ tval CNegative w_i [] true) = (st1, a, o1) /\
+  w_inject st1 (@mkQ tval CPositive (CN a) [] true) = (st2, b, o2) /\
+  w_inject st2 (@mkQ tval CNegative w_x [] true) = (st3, c, o3) /\
+  w_pull st3 c = (st4, PVal v) /\ w_pull st4 b = (st5, PUp) /\
+  w_pyop PNeg ["int:1"] = inl "int:-1" /\ w_pyop PPos ["int:-1"] = inl "int:-1".
+Proof. do 12 eexists. vm_compute. repeat split; reflexivity. Qed.
